@@ -26,6 +26,10 @@ RULE = (
     "bytes) and must raise CFIStateError/ValueError after the matching "
     "prefix of yields. non-trivial = >=1 state comparison or a judged "
     "error; distinct = (abi, validity class, multiset of directive names)."
+    " Zero-sized blocks at the address of the following block, table"
+    " keys inserted in shuffled order, modules with undefined byte"
+    " order, stray/duplicate .cfi_endproc and truncated fixed-width"
+    " operands among the ill-formed classes."
 )
 ASSUMPTIONS = [
     ".cfi_rel_offset follows the semantics the repository documents (offset rule + delta)",
